@@ -1066,6 +1066,21 @@ def ensure_crate():
     lock = os.path.join(RT, "Cargo.lock")
     if not os.path.exists(lock):
         shutil.copy(os.path.join(REPO, "Cargo.lock"), lock)
+    # cargo decides by modification times, which a patch applied within the second of the last build can defeat: when the
+    # *content* of /repo's crates changed, their builds are dropped before cargo is asked
+    h = hashlib.sha256()
+    for sub in ("src", "o2o-impl", "o2o-macros"):
+        for base, dirs, files in sorted(os.walk(os.path.join(REPO, sub))):
+            dirs[:] = sorted(d for d in dirs if d not in ("target", "target2", "tests"))
+            for f in sorted(files):
+                if f.endswith(".rs") or f == "Cargo.toml":
+                    pth = os.path.join(base, f)
+                    h.update(pth.encode())
+                    h.update(open(pth, "rb").read())
+    stamp = os.path.join(RT, ".repo_sources_hash")
+    if (open(stamp).read().strip() if os.path.exists(stamp) else "") != h.hexdigest():
+        subprocess.run(["cargo", "clean", "--offline", "-p", "o2o", "-p", "o2o-impl", "-p", "o2o-macros"], cwd=RT, env=ENV, stdout=subprocess.PIPE, stderr=subprocess.STDOUT, text=True)
+        open(stamp, "w").write(h.hexdigest())
 
 
 def write_modules(mods):
